@@ -48,7 +48,12 @@ def run(ctx):
   c16.rule_isolated(ctx, T.bodies(ctx.repo), "R-C07-NEIGHBOUR")
   # closed-form EC criteria: a healthy key on a supported >= 224-bit curve meets none of them only if the predicates are exactly the documented ones
   from . import c06
-  ctx.borrow(c06.rule_pred, "R-C07-EXACT", lambda r: r.where.startswith(("ec_single_checks:", "ec_util:")) or r.where.endswith(("CheckSizes.Check", "CheckExponents.Check")))
+  from pcstatic import regions
+  regions.ONE_SIDED = True          # only over-flagging accuses a healthy artifact; a criterion that flags too little is C06's business
+  try:
+    ctx.borrow(c06.rule_pred, "R-C07-EXACT", lambda r: r.construct.startswith("flag <=>") and (r.where.startswith("ec_single_checks:") or r.where.endswith(("CheckSizes.Check", "CheckExponents.Check"))))
+  finally:
+    regions.ONE_SIDED = False
   from . import c02
   ctx.borrow(c02.rule_codec, "R-C07-NEIGHBOUR")      # ExtendedBatchDL: a log found for point i is reported for point i
   ctx.expect("R-C07-NEIGHBOUR", 2 + 24 + 2, "BatchGCD element-wise + per-curve partitions + one fresh entry per artifact in 24 Check bodies")
